@@ -155,15 +155,15 @@ class Oblig(object):
     def on(self, tag):
         return tag in self.tags
 
-    def prove(self, tag, cond, what):
+    def prove(self, tag, cond, what, sig=None):
         if tag in self.tags:
             self.count += 1
-            self.c.prove(cond, '%s: %s' % (tag, what))
+            self.c.prove(cond, '%s: %s' % (tag, what), sig=sig)
 
-    def fail(self, tag, what):
+    def fail(self, tag, what, sig=None):
         if tag in self.tags:
             self.count += 1
-            self.c.fail('%s: %s' % (tag, what))
+            self.c.fail('%s: %s' % (tag, what), sig=sig)
 
 
 def compare_msg(ob, tag, ev, ref, k, client_closed=False):
@@ -281,6 +281,39 @@ def check_receive(c, w, rec, stream, tags, auto_pong=True, sock_id=0, bytewise_f
                     ob.fail('C04', 'graceful Disconnected after a protocol violation')
             else:
                 ob.fail('C04', 'connection did not end with Disconnected (events %s)' % names)
+    # ---- C18 (liveness, prefix form): every message whose last byte has been received is delivered -- and every
+    # automatic reply written -- in the same loop cycle, i.e. before the loop waits on the selector again
+    if ob.on('C18'):
+        consumed = 0
+        for li, e in enumerate(w.log):
+            if e[0] != 'recv' or e[1] != sock_id:
+                continue
+            consumed += e[2]
+            b = consumed - hs_len
+            if b < 0:
+                continue
+            nxt = len(w.log)
+            for lj in range(li + 1, len(w.log)):
+                if w.log[lj][0] == 'wait':
+                    nxt = lj
+                    break
+            due = [k for k, end in enumerate(ref.ends) if end <= b]
+            got = [x for x in w.log[:nxt] if x[0] == 'event' and x[2] in MSG_EVENTS]
+            if len(got) < len(due) and (first_pe is None or len(due) <= len(before)):
+                ob.fail('C18', 'after %d stream bytes %d message(s) were complete but only %d delivered before the loop waited again'
+                        % (b, len(due), len(got)), sig='C18: complete message not delivered in the cycle its last byte arrived')
+            if auto_pong and not client_closed:
+                pings_due = len([k for k in due if ref.msgs[k][0] == 'ping' and
+                                 (ref.server_close_at is None or k < ref.server_close_at)])
+                pongs = 0
+                for x in w.log[:nxt]:
+                    if x[0] in ('write', 'write-failed') and x[1] == sock_id:
+                        it0 = items_of(x[2])[:1]
+                        if it0 and isinstance(it0[0], int) and it0[0] & 0x0F == 0x0A and it0[0] & 0x80:
+                            pongs += 1
+                if pongs < pings_due:
+                    ob.fail('C18', 'after %d stream bytes %d Ping(s) were complete but only %d Pong(s) written before the loop waited again'
+                            % (b, pings_due, pongs), sig='C18: automatic reply not written in the cycle the Ping arrived')
     # ---- terminal event
     if not names or names[-1] != 'disconnected' or not rec.stopped:
         ob.fail('C01' if ob.on('C01') else sorted(ob.tags)[0], 'iteration did not end with Disconnected: %s' % names)
